@@ -116,6 +116,44 @@ func (w *c19Cache) Del(k []byte) {
 func (w *c19Cache) Clear()              { w.inner.Clear() }
 func (w *c19Cache) Stats() cache.Stats  { return w.inner.Stats() }
 
+// c19ProbeCache asks the cache that New configured whether it is what the
+// property's "cache" is taken to be: limited to size bytes of keys and values
+// (0 = unlimited), dropping the least recently used elements when full.  The
+// harness then replaces it by an instrumented cache of the same configuration.
+func c19ProbeCache(cc cache.Cache, size uint) string {
+	k1, k2 := []byte{1, 1}, []byte{2, 2}
+	if size == 0 {
+		cc.Set(k1, make([]byte, 1<<16))
+		cc.Set(k2, make([]byte, 1<<16))
+		if cc.Get(k1) == nil || cc.Get(k2) == nil {
+			return "CacheSize 0: the cache does not keep two elements of 64 KiB"
+		}
+		return ""
+	}
+	cc.Set(k1, make([]byte, size-2))
+	if cc.Get(k1) == nil {
+		return fmt.Sprintf("CacheSize %d: an element of exactly %d bytes is refused", size, size)
+	}
+	cc.Set(k2, make([]byte, size-1))
+	if cc.Get(k2) != nil {
+		return fmt.Sprintf("CacheSize %d: an element of %d bytes is kept", size, size+1)
+	}
+	if cc.Get(k1) == nil {
+		return fmt.Sprintf("CacheSize %d: a refused element made the cache drop another one", size)
+	}
+	cc.Set(k2, make([]byte, 1))
+	if cc.Get(k2) == nil {
+		return fmt.Sprintf("CacheSize %d: the full cache refuses a new element instead of dropping the least recently used one", size)
+	}
+	if cc.Get(k1) != nil {
+		return fmt.Sprintf("CacheSize %d: the cache holds %d bytes", size, size+3)
+	}
+	if st := cc.Stats(); st.Size != 3 || st.Count != 1 {
+		return fmt.Sprintf("CacheSize %d: %d bytes in %d elements after the probe, want 3 in 1", size, st.Size, st.Count)
+	}
+	return ""
+}
+
 type c19Hist struct {
 	// CacheSize is Config.CacheSize in bytes; 0 = unlimited.
 	CacheSize uint   `json:"cache_size"`
@@ -513,6 +551,7 @@ func c19Run(out *vfOut, h c19Hist, forced []string) {
 		CacheTime:   c19CacheTimeSec * time.Second,
 		CacheSize:   h.CacheSize,
 	})
+	probe := c19ProbeCache(c.cache, h.CacheSize)
 	wc := c19NewCache(h.CacheSize)
 	c.cache = wc
 
@@ -553,6 +592,10 @@ func c19Run(out *vfOut, h c19Hist, forced []string) {
 		if monOK {
 			monOK, monMsg, monKey = false, msg, key
 		}
+	}
+
+	if probe != "" {
+		fail("C19/cache-configuration", probe)
 	}
 
 	dump := func() string {
